@@ -23,3 +23,102 @@ package innerstorage
 //@   ensures [slot_is_signed_one] err == nil && verify ==> proto.KeyPeerId == innerValue.Key + "-" + crypto.UnmarshalEd25519PublicKeyProto(innerValue.Peer).PeerId() && kv.KeyPeerId == proto.KeyPeerId
 //@   ensures [fields_from_signed] err == nil ==> kv.Key == innerValue.Key && kv.AclId == innerValue.AclHeadId && kv.TimestampMicro == innerValue.TimestampMicro && kv.Identity == crypto.UnmarshalEd25519PublicKeyProto(innerValue.Identity).Account() && kv.PeerId == crypto.UnmarshalEd25519PublicKeyProto(innerValue.Peer).PeerId()
 //@   ensures [timestamp_orderable] err == nil ==> kv.TimestampMicro >= 0
+
+// ---------------------------------------------------------------------------------------------
+// C12: the batch path of the inner store.  updateValues looks every value of the batch up (a stale
+// value is skipped, it does not end the batch), writes a value only when its slot is empty or the
+// stored timestamp is strictly older (last writer wins), and returns one index element per write and
+// one undo record (prior element or "added" id) per write.
+//@ ghost kvFinds Int stable
+//@ ghost kvWrites Int stable
+//@ ghost kvLastFindErr Iface stable
+//@ ghost kvLastStoredF Real stable
+//@ ghost kvLastEncT Int stable
+//@ ghost kvLwwOk Bool stable
+//@ uf errIs(Iface, Iface) Bool
+//@ package errors
+//@ func Is
+//@   modifies nothing
+//@   posits [named] result == errIs(arg0, arg1)
+//@ package github.com/anyproto/any-store/anyenc
+//@ func (*Value).GetFloat64
+//@   modifies nothing
+//@   sets kvLastStoredF = result
+//@ func (*Value).GetString
+//@   modifies nothing
+//@ func (*Arena).Reset
+//@   modifies kinds none
+//@ package github.com/anyproto/any-sync/commonspace/object/keyvalue/keyvaluestorage/innerstorage
+//@ func iface anystore.Doc.Value
+//@   modifies nothing
+//@   ensures result != nil
+//@ func iface anystore.Collection.FindIdWithParser
+//@   modifies nothing
+//@   ensures result1 == nil ==> result0 != nil
+//@   sets kvFinds = kvFinds + 1
+//@   sets kvLastFindErr = result1
+//@ func (KeyValue).AnyEnc
+//@   trusted
+//@   modifies nothing
+//@   ensures result != nil
+//@   sets kvLastEncT = kv.TimestampMicro
+//@ func anyEncToElement
+//@   trusted
+//@   modifies nothing
+//@ func iface anystore.Collection.UpsertOne
+//@   modifies nothing
+//@   requires [last_writer_wins] errIs(kvLastFindErr, anystore.ErrDocNotFound) || f2i(kvLastStoredF) < kvLastEncT
+//@   sets kvWrites = kvWrites + 1
+// (frame assumed: it appends only to its own result slices, which the syntactic frame check cannot see
+// through the heap cells of named results; every postcondition below is checked against the body)
+//@ func (*storage).updateValues
+//@   trusted
+//@   modifies nothing
+//@   requires s != nil && s.collection != nil
+//@   requires [ctx_is_tx] ctx == txCtx(curTx)
+//@   ensures [every_value_looked_up] err == nil ==> kvFinds == old(kvFinds) + len(values)
+//@   ensures [one_element_and_one_undo_record_per_write] err == nil ==> len(elements) == kvWrites - old(kvWrites) && len(elements) == len(prior) + len(added)
+//@   loop 0:
+//@     invariant -1 <= rangeindex && rangeindex < len(values) && err == nil
+//@     invariant kvFinds == old(kvFinds) + rangeindex + 1
+//@     invariant len(elements) == kvWrites - old(kvWrites) && len(elements) == len(prior) + len(added)
+
+// Set: one write transaction around the batch (C10 discipline: commit exactly when everything
+// succeeded, otherwise roll back; an error is never swallowed), every storage write inside it, and -
+// when the transaction did not commit after the in-memory index was already updated - the index is
+// undone: one restoring Set per replaced element and one RemoveId per inserted id.
+//@ ghost idxSets Int stable
+//@ ghost idxRemoves Int stable
+//@ func iface anystore.Collection.WriteTx
+//@   modifies nothing
+//@   ensures result1 == nil ==> result0 != nil
+//@   sets txOpened = txOpened || result1 == nil
+//@   sets curTx = ite(result1 == nil, result0, curTx)
+//@ func iface ldiff.CompareDiff.Set
+//@   modifies nothing
+//@   sets idxSets = idxSets + 1
+//@ func iface ldiff.CompareDiff.RemoveId
+//@   modifies nothing
+//@   sets idxRemoves = idxRemoves + 1
+//@ func iface ldiff.CompareDiff.Hash
+//@   modifies nothing
+//@ func (*storage).Set$1
+//@   modifies kinds iface
+//@   requires tx != nil && s != nil && s.diff != nil
+//@   ensures [commit_when_no_error]   old(err) == nil ==> txCommitCalled && txRolledBack == old(txRolledBack) && (err == nil ==> txCommitted) && (err != nil ==> txCommitted == old(txCommitted))
+//@   ensures [rollback_on_error]      old(err) != nil ==> txRolledBack && txCommitCalled == old(txCommitCalled) && err == old(err) && txCommitted == old(txCommitted)
+//@   ensures [undo_index_if_not_committed] err != nil && diffUpdated ==> idxSets == old(idxSets) + len(prior) && idxRemoves == old(idxRemoves) + len(added)
+//@   ensures [index_kept_otherwise]   !(err != nil && diffUpdated) ==> idxSets == old(idxSets) && idxRemoves == old(idxRemoves)
+//@   loop 0:
+//@     invariant -1 <= i && i < len(prior) && idxSets == old(idxSets) + (len(prior) - 1 - i) && idxRemoves == old(idxRemoves)
+//@   loop 1:
+//@     invariant -1 <= rangeindex && rangeindex < len(added) && idxRemoves == old(idxRemoves) + rangeindex + 1 && idxSets == old(idxSets) + len(prior)
+//@ func (*storage).Set
+//@   requires s != nil && s.collection != nil && s.diff != nil && s.headStorage != nil
+//@   requires !txOpened && !txCommitted && !txRolledBack && !txCommitCalled
+//@   ensures [ok_implies_committed]      err == nil ==> txCommitted
+//@   ensures [err_implies_not_committed] err != nil ==> !txCommitted
+//@   ensures [commit_xor_rollback]       !(txCommitCalled && txRolledBack)
+//@   ensures [closed]                    txOpened ==> txCommitCalled || txRolledBack
+//@   ensures [failed_write_undoes_index] err != nil && txOpened && diffUpdated ==> idxSets == old(idxSets) + 1 + len(prior) && idxRemoves == old(idxRemoves) + len(added)
+//@   ensures [successful_write_keeps_index] err == nil && txOpened ==> idxSets == old(idxSets) + 1 && idxRemoves == old(idxRemoves)
